@@ -759,6 +759,20 @@ var stdTable = map[string]stdEffect{
 	"text/tabwriter.NewWriter":        {fresh: true, retain: []int{0}},
 	"(*text/tabwriter.Writer).Flush":  {writeDeep: []int{0}},
 	"(*text/tabwriter.Writer).Init":   {writeDeep: []int{0}, retArg: []int{0}},
+	"bufio.NewWriter":                 {fresh: true, retain: []int{0}},
+	"bufio.NewWriterSize":             {fresh: true, retain: []int{0}},
+	"(*bufio.Writer).WriteString":     {writeDeep: []int{0}},
+	"(*bufio.Writer).Write":           {writeDeep: []int{0}},
+	"(*bufio.Writer).WriteByte":       {writeDeep: []int{0}},
+	"(*bufio.Writer).Flush":           {writeDeep: []int{0}},
+	"bufio.NewReader":                 {fresh: true, retain: []int{0}},
+	"(*bufio.Reader).ReadByte":        {writeDeep: []int{0}},
+	"(*bytes.Buffer).Write":           {writeDeep: []int{0}},
+	"(*bytes.Buffer).WriteByte":       {writeDeep: []int{0}},
+	"(*bytes.Buffer).WriteString":     {writeDeep: []int{0}},
+	"(*bytes.Buffer).Bytes":           {retArg: []int{0}},
+	"(*bytes.Buffer).String":          {pure: true},
+	"(*bytes.Buffer).Len":             {pure: true},
 	"unicode/utf8.RuneLen":            {pure: true},
 	"strconv.Itoa":                    {pure: true},
 }
